@@ -519,6 +519,9 @@ def build_bootstrap_by_group():
                 obs.append(Oblig(f"C12/bootstrap/{nm}-sample-size-is-the-sum-of-the-group-draws{tag}", hy, n == sum(sizes[1:], sizes[0]), "post", ("C12",)))
                 # position k of the sample is position pf(k) of the concatenation; that lies in the block of one group g, at offset q,
                 # and is the score sub_g[idx_g[q]] = source[w_g(idx_g[q])] whose source label is g -- and the sample label is g
+                # the class invariant of the sample (its constructor sorts, or the site owes ascending arrays) -- stated first, independent
+                # of how the order is established
+                obs.append(Oblig(f"C12/bootstrap/{nm}-ascending(class-invariant){tag}", hy, Implies(And(0 <= i, i <= j, j < n), toR(a.elem(i)) <= toR(a.elem(j))), "invariant", ("C12",)))
                 pf = cand[("pos", "neg").index(nm)] if len(cand) == 2 else None
                 if pf is None:
                     obs.append(Oblig(f"C12/bootstrap/{nm}-pair-is-a-source-pair-with-the-same-label{tag}", [], BoolVal(False), "post", ("C12",), {"engine_error": "argsort witnesses not found"}))
@@ -533,7 +536,6 @@ def build_bootstrap_by_group():
                                      And(0 <= jsrc, jsrc < toI(s_.axes[0].size), toR(a.elem(k)) == toR(s_.elem(jsrc)), toI(g_.elem(k)) == g, toI(gs_.elem(jsrc)) == g), "post", ("C12",),
                                      {"key": f"C12/bootstrap/{nm}-label-travels"}))
                     off = off + m
-                obs.append(Oblig(f"C12/bootstrap/{nm}-ascending(class-invariant){tag}", hy, Implies(And(0 <= i, i <= j, j < n), toR(a.elem(i)) <= toR(a.elem(j))), "invariant", ("C12",)))
             for g in GROUPS:
                 tot_src = toI(subs[("pos", g)][0].axes[0].size) + toI(subs[("neg", g)][0].axes[0].size)
                 obs.append(Oblig(f"C12/bootstrap/group-{g}-keeps-its-total-size{tag}", hy, idxs[("pos", g)][1] + idxs[("neg", g)][1] == tot_src, "post", ("C12",)))
